@@ -43,6 +43,9 @@ func vfCallOps() []vfCallOp {
 		vfCallOp{Name: "b1:accept(id of an ordinary earlier message)", Kind: "event", Sess: "b1", Event: "accept", Seq: "stale"},
 		vfCallOp{Name: "a1:hang-up(id of an ordinary earlier message)", Kind: "event", Sess: "a1", Event: "hang-up", Seq: "stale"},
 		vfCallOp{Name: "b1:hang-up(id of an ordinary earlier message)", Kind: "event", Sess: "b1", Event: "hang-up", Seq: "stale"},
+		vfCallOp{Name: "b1:accept(id of a later message)", Kind: "event", Sess: "b1", Event: "accept", Seq: "later"},
+		vfCallOp{Name: "a1:hang-up(id of a later message)", Kind: "event", Sess: "a1", Event: "hang-up", Seq: "later"},
+		vfCallOp{Name: "b1:hang-up(id of a later message)", Kind: "event", Sess: "b1", Event: "hang-up", Seq: "later"},
 		vfCallOp{Name: "b1:bogus event", Kind: "event", Sess: "b1", Event: "bogus", Seq: "cur"},
 		vfCallOp{Name: "c1:hang-up (outsider)", Kind: "event", Sess: "c1", Event: "hang-up", Seq: "cur"},
 		vfCallOp{Name: "a1:leave", Kind: "leave", Sess: "a1"}, vfCallOp{Name: "a1:sub", Kind: "sub", Sess: "a1"},
@@ -151,6 +154,9 @@ func vfCallExec(callsOn bool) func(hist []int, last bool) vfXResult {
 				if op.Seq == "wrong" {
 					seq = 99
 				}
+				if op.Seq == "later" {
+					seq = m.Seq + 1 // a message published after the invitation (if any): exists, is not this call
+				}
 				if op.Seq == "stale" {
 					seq = 1 // the message published during the setup: exists, is not a call
 				}
@@ -176,7 +182,19 @@ func vfCallExec(callsOn bool) func(hist []int, last bool) vfXResult {
 							failed = j.Name
 						}
 					}
+					// an invitation which was refused (the message could not be saved) is no call at all:
+					// nothing is in progress, and no call status is ever published about it
+					refusedInvite := op.Kind == "invite" && code >= 400 && m.State == "idle"
+					if t := vfTopic(x.p2p); refusedInvite && t != nil && t.currentCall != nil {
+						res.Violations = append(res.Violations, vfXViolation{Key: "C15:refused-invitation-left-call@" + failed,
+							What: fmt.Sprintf("%s with store call #%d (%s) failing was answered %d, yet the topic holds a call in progress (seq %d)", op.Name, vfXFault.K, failed, code, t.currentCall.seq)})
+					}
+					msgs0 := len(x.w.db.Messages(x.p2p))
 					vsched.Advance(40 * time.Second)
+					if n := len(x.w.db.Messages(x.p2p)); refusedInvite && n != msgs0 {
+						res.Violations = append(res.Violations, vfXViolation{Key: "C15:call-status-without-invitation@" + failed,
+							What: fmt.Sprintf("%s with store call #%d (%s) failing was answered %d; after the establishment timeout %d call status message(s) were published for it", op.Name, vfXFault.K, failed, code, n-msgs0)})
+					}
 					if t := vfTopic(x.p2p); t != nil && t.currentCall != nil && len(t.currentCall.parties) < 2 {
 						res.Violations = append(res.Violations, vfXViolation{Key: "C15:call-never-ends-after-store-failure:" + op.Kind + ":" + op.Event + "@" + failed,
 							What: fmt.Sprintf("%s with store call #%d (%s) failing: the unanswered call is still in progress after the establishment timeout", op.Name, vfXFault.K, failed)})
